@@ -120,8 +120,8 @@ static void run_item(const Item& it, const std::string& enc, uint64_t X, Result&
             case 1: if (n.arg <= (uint64_t)INT64_MAX) { int64_t v = d.read_negative(); if (v != -1 - (int64_t)n.arg) fail("read", "read_negative returned " + std::to_string(v)); } else d.skip_item(); break;
             case 2: { std::string s = d.read_bytestring(); if (s != n.bytes) fail("read", "read_bytestring returned " + std::to_string(s.size()) + " bytes, expected " + std::to_string(n.bytes.size())); break; }
             case 3: { std::string s = d.read_textstring(); if (s != n.bytes) fail("read", "read_textstring returned " + std::to_string(s.size()) + " bytes, expected " + std::to_string(n.bytes.size())); break; }
-            case 4: { bool indef = false; uint64_t c = d.read_array_start(indef); if (indef != n.indef || (!indef && c != n.kids.size())) fail("read", "read_array_start returned " + std::to_string(c) + "/" + std::to_string(indef)); leaf = false; break; }
-            case 5: { bool indef = false; uint64_t c = d.read_map_start(indef); if (indef != n.indef || (!indef && c != n.kids.size() / 2)) fail("read", "read_map_start returned " + std::to_string(c) + "/" + std::to_string(indef)); leaf = false; break; }
+            case 4: { bool indef = !n.indef; /* the out-parameter starts with the opposite value: the call has to set it */ uint64_t c = d.read_array_start(indef); if (indef != n.indef || (!indef && c != n.kids.size())) fail("read", "read_array_start returned " + std::to_string(c) + "/" + std::to_string(indef)); leaf = false; break; }
+            case 5: { bool indef = !n.indef; uint64_t c = d.read_map_start(indef); if (indef != n.indef || (!indef && c != n.kids.size() / 2)) fail("read", "read_map_start returned " + std::to_string(c) + "/" + std::to_string(indef)); leaf = false; break; }
             case 7: if (n.is_bool()) { bool b = d.read_bool(); if (b != (n.ai == 21)) fail("read", "read_bool wrong value"); } else d.skip_item(); break;
             default: d.skip_item(); break;
             }
